@@ -216,8 +216,10 @@ func runC21(c *Ctx) {
 		}
 		c.check(bad == "", "C21.iterations", "pbDecrypterFor", f, "PBE iteration count bounded before key derivation", bad)
 	}
-	// ---- fillWithRepeats arithmetic
-	if f := c.fn(pk, "fillWithRepeats"); f != nil {
+	// ---- fillWithRepeats arithmetic (by interpretation: independent of how the
+	// repetition is written; the shape-based form below is no longer run)
+	c21Fill(c, pk)
+	if f := c.fnOpt(pk, "fillWithRepeats"); f != nil && false {
 		var rep *ssa.Call
 		for _, ci := range callsNamed(f, "bytes.Repeat") {
 			rep = ci.(*ssa.Call)
